@@ -309,7 +309,24 @@ def spec_check(ops):
                 if simple and k in d:
                     return n, 'deleted %r still present' % (k,)
             elif t == 'pop':
-                d.pop(k) if op[2] is None else d.pop(k, op[2])
+                had = (k in d) if simple else None
+                try:
+                    got = d.pop(k) if op[2] is None else d.pop(k, op[2])
+                    raised = False
+                except KeyError:
+                    raised = True
+                par = k.rsplit('.', 1)[0] if '.' in k else None
+                try:
+                    par_is_level = par is None or isinstance(d[par], dotdict_base)
+                except Exception:
+                    par_is_level = False
+                if simple and had is False and par_is_level:           # (the level exists, its last component does not)
+                    if op[2] is None and not raised:
+                        return n, 'pop of %r, which is not in the tree, without a default did not raise KeyError (returned %r)' % (k, got)
+                    if op[2] is not None and (raised or got != op[2]):
+                        return n, 'pop of %r, which is not in the tree, did not return the given default' % (k,)
+                if simple and had and k in d:
+                    return n, 'popped %r still present' % (k,)
             elif t == 'setdefault':
                 had = (k in d) if simple else None
                 old = canon(d[k]) if had else None
